@@ -167,4 +167,68 @@ PROPERTIES = {
                          "combined_limits": 1000000, "programs_with_exhaustive_limits": 100000, "heap_limited_executions": 1000000},
         },
     },
+    "C07": {
+        "level": "exploration",
+        "rule": ("two-module rig tx.out -> rx.in over one channel: bitrate {0,1,3,8,1e3,8e3,1e6,1e9,1e12,1e13,123456789} x latency {0,3ns,1ms,1s} x jitter {0,1ms,1s} x "
+                 "policy {Drop, Queue(None), Queue(0), Queue(L) with L at / one below / one above sums of the message lengths in play}; offers in bursts of 1..50 "
+                 "inside one handler with gaps below / at / above the transmission time, several busy periods, body sizes {0..65000}; plus an enumerated "
+                 "boundary grid (limit = k*len-1, k*len, k*len+1 x burst 1..5). Every offer logs the channel's busy flag, finish time and queue "
+                 "(hook: Channel::verif_state) before and after; every arrival is logged by the receiver. Oracle: reference automaton with exact integer "
+                 "arithmetic (only size/bitrate combinations whose rounding to ns is unambiguous are generated): busy flag, finish time and queue length at "
+                 "every offer, arrival time = start + tx + latency (+[0,jitter]), exactly-once, no phantom, dropped never delivered, offer order preserved "
+                 "at zero jitter, nothing queued / busy at the end. An offer made exactly at the end of a transmission is resolved by the sampled flag. "
+                 "Non-trivial = case with at least one queued or dropped and one delivered message; distinct = hash of the case."),
+        "exhaustive_part": "boundary grid: 4 bitrates x 3 sizes x limits {k*len-1,k*len,k*len+1 | k=0..2} x bursts 1..5",
+        "assumptions": ["Message::length() = 64 + body bytes is checked per offer; the reference never calls the channel's own duration functions"],
+        "stages": [
+            native("rig", "desmon", "c07", tiers=QT, timeout={"quick": 900, "thorough": 5400}),
+        ],
+        "floor": {
+            "quick": {"offers": 1000000, "deliveries_checked": 500000, "drops_predicted": 300000, "messages_queued": 200000, "busy_periods": 300000,
+                      "offers_at_the_busy_boundary_resolved_by_flag": 20000, "zero_length_transmissions": 50000, "cases_with_jitter": 20000,
+                      "boundary_grid_cases": 400},
+            "thorough": {"offers": 20000000, "deliveries_checked": 10000000, "drops_predicted": 6000000, "messages_queued": 4000000, "busy_periods": 6000000,
+                         "zero_length_transmissions": 1000000, "cases_with_jitter": 400000, "boundary_grid_cases": 400},
+        },
+    },
+    "C08": {
+        "level": "exploration",
+        "rule": ("declared gate chains [g0..gk], k = 1..20 hops, gates on one module / a line of modules / random modules, named gates or clusters, channels "
+                 "(bitrate, latency, zero jitter) on random hops; built by connect calls in EVERY permutation for k <= 5 (every orientation vector for k <= 4) "
+                 "and random permutations / orientations above, with repeated calls mixed in; 1..4 uncontended messages per chain in both directions with send "
+                 "and send_in. Oracle = the declared chain: kind of every gate, path_iter from both ends (exact mirror images), path_end, channel(), symmetry "
+                 "after each connect, idempotence of repeated connects, rejection of a third peer; each message handled exactly once, by the owner of the far "
+                 "end, at send time + sum of per-hop (latency + size*8/bitrate), with sender id, receiver id and last gate in the header. Non-trivial = chain "
+                 "with >= 2 hops that checked clean; distinct = hash of the case."),
+        "exhaustive_part": "all permutations of the connect calls for k <= 5 hops (all 2^k orientations for k <= 4, 6 orientation vectors for k = 5)",
+        "assumptions": ["contention on channels is C07's business: messages of one chain are spaced so that every channel is idle when offered"],
+        "stages": [
+            native("chains", "desmon", "c08", tiers=QT, timeout={"quick": 900, "thorough": 5400}),
+        ],
+        "floor": {
+            "quick": {"deliveries_checked": 100000, "chain_walks_checked": 100000, "repeated_connect_calls": 20000, "third_peer_rejections": 50000,
+                      "enumerated_connect_orders": 1000, "chains_with_channels": 30000, "chains_with_reverse_sends": 30000, "max_hops": 20},
+            "thorough": {"deliveries_checked": 2000000, "chain_walks_checked": 2000000, "repeated_connect_calls": 400000, "third_peer_rejections": 1000000,
+                         "enumerated_connect_orders": 1000, "max_hops": 20},
+        },
+    },
+    "C19": {
+        "level": "exploration",
+        "rule": ("declared module graphs: 1..12 modules (some nested), trees / stars / rings / cliques / random multigraphs with self loops through two gates of "
+                 "one module, multi edges, disconnected parts, unconnected gates, chains through 0..15 transit gates (16 hops = the documented limit); for each: the "
+                 "global view, the view spanned from EVERY module, a node-filtered and an edge-filtered view, dijkstra from EVERY source. Oracle = reference digraph "
+                 "from the declaration (one edge per chain endpoint, labelled with the two endpoint gates) + BFS: node multiset, edge multiset (src, dst, start "
+                 "gate, end gate), gate owners match edge ends, edges_for, connected / bidirectional by definition, filter results, dijkstra keys = reachable "
+                 "set and 1 + dist(first hop, v) == dist(src, v). Non-trivial = graph with >= 3 modules and >= 2 chains; distinct = hash of the case."),
+        "assumptions": [],
+        "stages": [
+            native("views", "desmon", "c19", tiers=QT, timeout={"quick": 900, "thorough": 5400}),
+        ],
+        "floor": {
+            "quick": {"spanned_views_checked": 200000, "dijkstra_targets_checked": 1000000, "filtered_views_checked": 50000, "edges_compared": 2000000,
+                      "graphs_with_self_loops": 5000, "graphs_with_16_hop_chains": 5000},
+            "thorough": {"spanned_views_checked": 4000000, "dijkstra_targets_checked": 20000000, "filtered_views_checked": 1000000,
+                         "graphs_with_self_loops": 100000, "graphs_with_16_hop_chains": 100000},
+        },
+    },
 }
